@@ -63,15 +63,16 @@
 (* look inside a string).  A value is a record [k, t, n, runs]:            *)
 (*   k in {blank, num, bool, str, err, rich, lazy}; t = the characters of  *)
 (*   a str / lazy / err / bool value; n = a number; runs = the rich text.  *)
-(* A number is an exact decimal [cls, neg, digs, e]: value =               *)
+(* A number is an exact decimal [cls, neg, digs, e, bits]: value =         *)
 (* (-1)^neg x d.igs x 10^e with digs free of leading and trailing zeros    *)
 (* (<<>> = zero; -0 is kept).  For a text of at most 15 significant digits *)
 (* and -307 <= e <= 307 this decimal IS the shortest round-trip decimal of *)
 (* the double nearest to the text (IEEE 754: DBL_DIG = 15), which is how   *)
 (* the real object is observed ({:e} of std); for longer digit strings the *)
-(* shortest round-trip decimal of the correctly rounded double comes with  *)
-(* the step (oracle computed by an independent implementation, CPython's   *)
-(* float/repr) and is only sanity-checked here (OrcPlausible).             *)
+(* correctly rounded double (its bit pattern and a shortest round-trip     *)
+(* decimal) comes with the step (oracle computed by an independent         *)
+(* implementation, CPython's float/repr); it is sanity-checked here        *)
+(* (OrcPlausible) and compared with the real number by its bits.           *)
 (* A cell is [here, v, f, ft]: exists in the store, value, has a formula,  *)
 (* formula text.  Every action is cells' = Post..(cells, args) with plain  *)
 (* operators, so that Trace_CellVal.tla evaluates the same operators.      *)
@@ -125,7 +126,12 @@ ExpVal(x) == LET d == StripLZ(Body(x))
                  m == IF Len(d) > 6 THEN 999999 ELSE NatOf(d)
              IN  IF IsNeg(x) THEN 0 - m ELSE m
 
-Dec(cls, neg, digs, e) == [cls |-> cls, neg |-> neg, digs |-> digs, e |-> e]
+(* bits: the bit pattern of the double (16 hex digits) when it came with the step (oracle, set_value_number), ""
+   for a decimal derived from a text here.  Shortest round-trip digits are unique up to 15 digits; a 17-digit
+   shortest decimal need not be (a double that lies exactly between two 17-digit decimals), so numbers that carry
+   their bits are compared by them. *)
+Dec(cls, neg, digs, e) == [cls |-> cls, neg |-> neg, digs |-> digs, e |-> e, bits |-> ""]
+NoBits(d) == [d EXCEPT !.bits = ""]
 NoDec == Dec("none", FALSE, <<>>, 0)
 Zero(neg) == Dec("fin", neg, <<>>, 0)
 
@@ -246,7 +252,7 @@ DataType(v) == CASE v.k = "num" -> "n" [] v.k = "bool" -> "b" [] v.k \in {"str",
 ValueChars(v) == CASE v.k = "num" -> NumChars(v.n) [] v.k \in {"bool", "str", "err"} -> v.t [] OTHER -> <<>>
 ValueStr(v) == IF v.k = "rich" THEN JoinRuns(v.runs) ELSE Str(ValueChars(v))
 HasNum(v)   == v.k = "num" \/ (Deviant = "strnum" /\ v.k = "str" /\ IsDecimal(v.t))
-Rereads(d)  == d.cls = "fin" /\ IsDecimal(NumChars(d)) /\ DecOf(NumChars(d)) = d
+Rereads(d)  == d.cls = "fin" /\ IsDecimal(NumChars(d)) /\ DecOf(NumChars(d)) = NoBits(d)
 (* the projection of a cell through the getters (an absent cell reads like a blank one: Worksheet::get_value,
    get_cell_value).  An unresolved lazy value reads as blank through the plain getters. *)
 Proj(c) == [dt |-> DataType(c.v), val |-> ValueStr(c.v), hasnum |-> HasNum(c.v),
